@@ -9,6 +9,7 @@ import Driver.C20
 import Driver.C11
 import Driver.C06
 import Driver.C19
+import Driver.C03
 open Driver
 
 def dispatch (line : String) : String :=
@@ -28,6 +29,9 @@ def dispatch (line : String) : String :=
   | "monitor" :: args => C11.monitorOp args
   | "schedmon" :: args => C11.schedmonOp args
   | "depcheck" :: args => C20.depcheck args
+  | "gitfold" :: args => C03.gitfold args
+  | "c03states" :: args => C03.states args
+  | "c03wf" :: args => C03.wf args
   | "reconcile" :: args => C17.reconcile args
   | "failover" :: args => C15.failoverOp args
   | "slice" :: args => C13.op "slice" args
